@@ -33,6 +33,12 @@
      LONG INPUTS.  LongCase (star): one very long input (lengths just above 2^12 .. 2^17, used counts that do not divide the
                  power of two): the number of symbols, the emitted length and the POSITION of every data element in the
                  padded stream (element j at position j: `LongLaw`) - judged on the real code by length + round trip (rel).
+     PIPELINING.  After two or more uses in one configuration the frame EMITTED BY AN EARLIER use (kept by the caller) is
+                 demodulated again on the live object (`StartRe`, `cfg.re` = position of that use): demodulate is a function
+                 of its argument and the current parameters only, whatever was modulated in between (`RoundTrip` on the
+                 re-demodulation chain).
+     LISTING ORDER.  A raw profile may be listed in any order (`Orders`: sorted, reversed, split = the two coincident taps far
+                 apart and the largest delay first): discretisation merges ALL taps that round to one sample.
      REALISATIONS.  A live chain (a use of a history) is sent through the layout of its configuration (the same channel object
                  from use to use) AND through a realisation of its own (keyed by the position of the use), while ONE
                  equaliser object lives through the whole history: the equalised symbols depend only on the arguments of
@@ -97,6 +103,8 @@
      ModulateInBlocks (inputs longer than 65536 symbols are cut into independently zero-padded blocks),
      EqMemoByIdentity (the equaliser re-uses the mean response of an EARLIER impulse response of the same fft size and
      symbol count - what a cache keyed by the identity of a dropped object does when the address is recycled),
+     DemodZeroesLastPadding (demodulate blanks the positions the LAST modulate call padded, when the sizes agree),
+     MergeNeighboursOnly (discretisation merges coincident taps only when they are neighbours in the listing),
      PadKeepsOldData (the zero-padded IFFT input is kept between modulate calls and re-zeroed only when its
      layout <<symbols, fft, used>> changes), DemodScalesArgument (demodulate removes the scale in place on
      the caller's array)
@@ -108,6 +116,7 @@ CONSTANTS Configs,   \* set of <<N, cp, u>> for which pipeline cases are generat
           MapFfts,   \* set of fft sizes whose index map is checked alone (for every even u <= N)
           ParamFfts, \* set of fft sizes for which parameter validation is checked (cp -1..N+1, u 0..N+2)
                      \* "long" : {4u+1, 5u} (five symbols);  "all" also contains the EMPTY input (0 symbols; no channel)
+          Orders,    \* set of listing orders of a raw profile: "sorted" | "reversed" | "split"
           Routes,    \* set of channel construction routes: "int" | "arrays" | "profile" | "discrete"
           LenMode,   \* "isi" | "two" | "three" | "all" : data lengths {u+1} | {u-1, 2u+1} | + 2u | 1..2u+1
                      \* "pair" | "uses" : {2u, u+1} | {u-1, u+1, 2u}  (same symbol count, full and partial)
@@ -145,8 +154,8 @@ Exact(N) == N \in {2, 4, 8, 16}
 NoChan == [taps |-> <<>>, block |-> FALSE, g |-> 0, route |-> "int", raw |-> <<>>]
 NoObj  == [N |-> 0, cp |-> 0, u |-> 0]
 NoUse  == <<0, 0, 0, 0, 0>>                       \* <<N, cp, u, symbols, position>> of a use
-NoPrev == [ns |-> 0, N |-> 0, u |-> 0, pad |-> <<>>, cur |-> NoUse, old |-> NoUse]
-NoCfg  == [N |-> 0, cp |-> 0, u |-> 0, L |-> 0, pat |-> <<"none", 0, 0>>, pt |-> "int"]
+NoPrev == [ns |-> 0, N |-> 0, u |-> 0, L |-> 0, pad |-> <<>>, cur |-> NoUse, old |-> NoUse]
+NoCfg  == [N |-> 0, cp |-> 0, u |-> 0, L |-> 0, pat |-> <<"none", 0, 0>>, pt |-> "int", re |-> 0]
 N0 == cfg.N
 CP == cfg.cp
 U  == cfg.u
@@ -290,16 +299,27 @@ RawOf(taps, k) ==
         last == taps[n][1]
     IN  [i \in 1..(n + 1) |-> IF i < n THEN 4 * taps[i][1] + off(i)
                                ELSE IF last = 0 THEN i - n ELSE 4 * last + (IF i = n THEN -1 ELSE 1)]
+\* listing orders of a raw profile r (sorted by construction, the two coincident taps last)
+Reorder(r, ord) == LET n == Len(r)
+                   IN  IF ord = "reversed" THEN [i \in 1..n |-> r[n + 1 - i]]
+                       ELSE IF ord = "split" THEN [i \in 1..n |-> IF i = 1 THEN r[n] ELSE r[i - 1]]
+                       ELSE r
+\* the discretised delays as the as-is code forms them: a new tap wherever the nearest sample CHANGES along the listing
+MergedAsIs(r) == IF Dev.MergeNeighboursOnly
+                   THEN Cardinality({i \in 1..Len(r) : i = 1 \/ Near(r[i]) # Near(r[i - 1])})
+                   ELSE Cardinality({Near(r[i]) : i \in 1..Len(r)})
 \* discretisation: nearest sample of every raw tap, merged and sorted = the delays of the layout
 DiscOk(ch) == ch.route = "int" \/
               ( /\ \A i \in 1..Len(ch.raw) : ch.raw[i] % 4 # 2 /\ ch.raw[i] >= 0
                 /\ {Near(ch.raw[i]) : i \in 1..Len(ch.raw)} = {ch.taps[q][1] : q \in 1..Len(ch.taps)}
-                /\ Len(ch.raw) > Len(ch.taps) )
+                /\ Len(ch.raw) > Len(ch.taps)
+                /\ MergedAsIs(ch.raw) = Len(ch.taps) )
 Channels(c, k) ==
     LET lays == {FixLayout(t, c[1], c[3]) : t \in RawLayouts(c, k)}
         ext  == IF Dev.MemoryExceedsCp THEN {<< <<0, <<1, 0>>>>, <<c[2] + 1, <<0, 1>>>> >>} ELSE {}
-    IN  {[taps |-> t, block |-> b, g |-> g, route |-> r, raw |-> IF r = "int" THEN <<>> ELSE RawOf(t, k)] :
-            t \in lays \cup ext, b \in (IF Block THEN BOOLEAN ELSE {FALSE}), g \in Gains, r \in Routes}
+    IN  {[taps |-> t, block |-> b, g |-> g, route |-> r[1], raw |-> IF r[1] = "int" THEN <<>> ELSE Reorder(RawOf(t, k), r[2])] :
+            t \in lays \cup ext, b \in (IF Block THEN BOOLEAN ELSE {FALSE}), g \in Gains,
+            r \in {<<x, "sorted">> : x \in Routes \cap {"int"}} \cup ((Routes \ {"int"}) \X Orders)}
 
 (* ============================================ the machine ======================================= *)
 Init == /\ pc = "idle" /\ cfg = NoCfg /\ ns = 0 /\ data = <<>> /\ chan = NoChan
@@ -309,12 +329,14 @@ Init == /\ pc = "idle" /\ cfg = NoCfg /\ ns = 0 /\ data = <<>> /\ chan = NoChan
         /\ demi = <<>> /\ eq = <<>>
         /\ hist = <<>> /\ want = NoObj /\ obj = NoObj /\ memo = {} /\ prev = NoPrev /\ rxe = 0
 
-Choose(c, L, pat, pt) ==
+ChooseRe(c, L, pat, pt, re) ==
     /\ pc = "idle" /\ pc' = "input"
-    /\ cfg' = [N |-> c[1], cp |-> c[2], u |-> c[3], L |-> L, pat |-> pat, pt |-> pt]
+    /\ cfg' = [N |-> c[1], cp |-> c[2], u |-> c[3], L |-> L, pat |-> pat, pt |-> pt, re |-> re]
     /\ data' = DataOf(pat, L, KeyOf(c, L))
     /\ UNCHANGED live /\ UNCHANGED psq /\ UNCHANGED rxe
     /\ UNCHANGED <<ns, chan, sc, padded, grid, gridi, body, tx, txi, rxfull, rx, win, wini, freq, dem, demi, eq>>
+
+Choose(c, L, pat, pt) == ChooseRe(c, L, pat, pt, 0)
 
 MapCase(N, u) ==
     /\ pc = "idle" /\ pc' = "mapcase"
@@ -331,7 +353,7 @@ ParamCase(N, cp, u) ==
 Pad ==
     /\ pc = "input" /\ pc' = "pad"
     /\ ns' = IF Dev.SymbolsFloor THEN (IF cfg.L < U THEN 1 ELSE cfg.L \div U) ELSE NSym(cfg.L, U)
-    /\ padded' = IF hist # <<>> THEN prev.pad        \* live object: the IFFT input as the use left it (UseObj)
+    /\ padded' = IF hist # <<>> /\ cfg.re = 0 THEN prev.pad   \* live object: the IFFT input as the use left it (UseObj)
                   ELSE [j \in 1..(ns' * U) |-> IF j <= cfg.L THEN data[j] ELSE GZ]
     /\ UNCHANGED live /\ UNCHANGED psq /\ UNCHANGED rxe
     /\ UNCHANGED <<cfg, data, chan, sc, grid, gridi, body, tx, txi, rxfull, rx, win, wini, freq, dem, demi, eq>>
@@ -415,8 +437,12 @@ Unmap ==
     /\ pc = "fft" /\ pc' = "dem"
     /\ LET idx == UsedIdxLive(N0, U)
        IN  /\ demi' = [j \in 1..(ns * U) |-> <<(j - 1) \div U, idx[((j - 1) % U) + 1]>>]
-           /\ dem'  = IF Exact(N0) THEN [j \in 1..(ns * U) |-> freq[((j - 1) \div U) + 1][idx[((j - 1) % U) + 1] + 1]]
-                      ELSE <<>>
+           \* as-is with the remembered padding of the LAST modulate call of the live object
+           /\ LET zeros == prev.ns * prev.u - prev.L
+                  blank == Dev.DemodZeroesLastPadding /\ hist # <<>> /\ zeros > 0 /\ ns * U = prev.ns * prev.u
+              IN  dem' = IF Exact(N0) THEN [j \in 1..(ns * U) |-> IF blank /\ j > ns * U - zeros THEN CyZero(MM)
+                                                                   ELSE freq[((j - 1) \div U) + 1][idx[((j - 1) % U) + 1] + 1]]
+                         ELSE <<>>
     /\ UNCHANGED live /\ UNCHANGED psq /\ UNCHANGED rxe
     /\ UNCHANGED <<cfg, ns, data, chan, sc, padded, grid, gridi, body, tx, txi, rxfull, rx, win, wini, freq, eq>>
 
@@ -477,7 +503,7 @@ UseObj(L) ==
            nsx == NSym(L, obj.u)
            stale == Dev.PadKeepsOldData /\ prev.ns = nsx /\ prev.N = obj.N /\ prev.u = obj.u
        IN  /\ hist' = Append(hist, <<"use", L, k, 0>>)
-           /\ prev' = [ns |-> nsx, N |-> obj.N, u |-> obj.u,
+           /\ prev' = [ns |-> nsx, N |-> obj.N, u |-> obj.u, L |-> L,
                        pad |-> [j \in 1..(nsx * obj.u) |-> IF j <= L THEN d[j] ELSE IF stale THEN prev.pad[j] ELSE GZ],
                        cur |-> <<obj.N, obj.cp, obj.u, nsx, k>>, old |-> prev.cur]
     /\ UNCHANGED pc /\ UNCHANGED Pipeline /\ UNCHANGED <<want, obj, memo, rxe>>
@@ -487,6 +513,10 @@ UseLive     == pc = "idle" /\ hist # <<>> /\ \E L \in Lengths(obj.u) : UseObj(L)
 StartLive   == pc = "idle" /\ LastIsUse /\ obj = want
                /\ Choose(<<obj.N, obj.cp, obj.u>>, hist[Len(hist)][2], <<"dense", hist[Len(hist)][3], 0>>, "int")
 
+\* the frame emitted by an EARLIER use of the current run of uses is demodulated again (loopback only)
+StartRe     == pc = "idle" /\ LastIsUse /\ obj = want /\ TrailingUses(hist) >= 2
+               /\ \E p \in (Len(hist) - TrailingUses(hist) + 1)..(Len(hist) - 1) :
+                     ChooseRe(<<obj.N, obj.cp, obj.u>>, hist[p][2], <<"dense", hist[p][3], 0>>, "int", p)
 Start    == pc = "idle" /\ hist = <<>> /\ \E c \in Configs : \E L \in Lengths(c[3]) : \E pat \in Patterns(c[3], L) :
                 \E pt \in {t \in PTypes : Fits(t, c, L)} : Choose(c, L, pat, pt)
 ScaleCase(k) ==
@@ -498,7 +528,7 @@ ScaleStar == pc = "idle" /\ hist = <<>> /\ \E k \in ScaleCases : ScaleCase(k)
 MapStar  == pc = "idle" /\ hist = <<>> /\ \E N \in MapFfts : \E h \in 1..(N \div 2) : MapCase(N, 2 * h)
 ParamStar == pc = "idle" /\ hist = <<>> /\ \E N \in ParamFfts : \E cp \in -1..(N + 1) : \E u \in -1..(N + 2) : ParamCase(N, cp, u)
 \* the layouts of the configuration and, for a use of a live object, a realisation of its own (cfg.pat[2] = position of the use)
-Transmit == pc = "cp" /\ ns > 0
+Transmit == pc = "cp" /\ ns > 0 /\ cfg.re = 0
             /\ LET c == <<cfg.N, cfg.cp, cfg.u>>
                IN  \E ch \in Channels(c, KeyOf(c, 0)) \cup (IF hist # <<>> /\ OwnReal THEN Channels(c, KeyOf(c, cfg.pat[2])) ELSE {}) : Channel(ch)
 \* one very long input: <<N, cp, u, L>>
@@ -515,7 +545,7 @@ LongCase(k) ==
     /\ UNCHANGED <<ns, data, chan, sc, padded, grid, gridi, body, tx, txi, rxfull, rx, win, wini, freq, dem, demi, eq>>
     /\ UNCHANGED live /\ UNCHANGED psq /\ UNCHANGED rxe
 LongStar == pc = "idle" /\ hist = <<>> /\ \E k \in LongCases : LongCase(k)
-Next == LongStar \/ ScaleStar \/ NewObject \/ Reconfigure \/ UseLive \/ StartLive \/ Start \/ MapStar \/ ParamStar \/ Pad \/ Map \/ Ifft \/ AddCP \/ Loop \/ Transmit
+Next == LongStar \/ ScaleStar \/ NewObject \/ Reconfigure \/ UseLive \/ StartLive \/ StartRe \/ Start \/ MapStar \/ ParamStar \/ Pad \/ Map \/ Ifft \/ AddCP \/ Loop \/ Transmit
         \/ Crop \/ RemoveCP \/ Fft \/ Unmap \/ Equalize
 
 (* ============================================= the laws ========================================= *)
@@ -673,7 +703,7 @@ StepReq ==
       [] pc = "idle" -> IF LastIsUse THEN {} ELSE {"RejectedChangesNothing"}                     \* set_parameters
       [] OTHER       -> {}
 Emit == (pc # "idle" \/ hist # <<>>) =>
-        EmitEdge([step |-> IF pc = "idle" THEN "call" ELSE pc, hist |-> hist, id |-> <<cfg.N, cfg.cp, cfg.u, cfg.L, cfg.pat>>, pt |-> cfg.pt, ch |-> chan,
+        EmitEdge([step |-> IF pc = "idle" THEN "call" ELSE pc, hist |-> hist, id |-> <<cfg.N, cfg.cp, cfg.u, cfg.L, cfg.pat>>, pt |-> cfg.pt, re |-> cfg.re, ch |-> chan,
                   sc |-> sc, ps |-> PowerScale(cfg.N, cfg.cp, cfg.u), exact |-> Exact(cfg.N),
                   req |-> StepReq, out |-> StepOut])
 =============================================================================
